@@ -45,3 +45,21 @@ def segmentations(text: str, limit: int = 3, explicit_counts: bool = True) -> Li
 
 def unambiguous(text: str, explicit_counts: bool = True) -> bool:
     return len(segmentations(text, 2, explicit_counts)) == 1
+
+
+def greedy(text: str):
+    """Maximal-munch reading (longest known name first, then the longest count); None if it gets stuck."""
+    out, pos = [], 0
+    while pos < len(text):
+        for nm in names():
+            if text.startswith(nm, pos):
+                pos += len(nm)
+                j = pos
+                while j < len(text) and (text[j].isdigit() or text[j] in '+-.'):
+                    j += 1
+                out.append((nm, text[pos:j]))
+                pos = j
+                break
+        else:
+            return None
+    return out
